@@ -675,6 +675,18 @@ func (e *Env) call(x *Expr) TTerm {
 			e.g.Global(n, "Iface", true)
 			return TTerm{S: n, Sort: "Iface"}
 		}
+	case "pendingOnly":
+		// pendingOnly(n1, n2, ...): the AST nodes not yet accounted for are at most the given ones (linear contracts)
+		pend := e.famOf("G_pend")
+		var alts []string
+		for _, t := range a {
+			if t.Sort != "Iface" {
+				return e.fail("pendingOnly takes AST nodes")
+			}
+			alts = append(alts, "(= q_pk (iref "+t.S+"))")
+		}
+		alts = append(alts, "false")
+		return B("(forall ((q_pk Int)) (! (=> (select " + pend + " q_pk) (or " + strings.Join(alts, " ") + ")) :pattern ((select " + pend + " q_pk))))")
 	case "returns":
 		// returns("pkg.f", receiver/arguments..., results...): f was called with these arguments and returned these results
 		if len(x.Args) >= 1 && x.Args[0].Op == "str" {
